@@ -849,8 +849,18 @@ func c02Plugin(c *Ctx, F *ssa.Function, getCall *ssa.Call) {
 			c.Unk("plugin/min-version-attr", rule, w.FnPos(F), "no call reading the verificationPluginMinVersion attribute found")
 		} else {
 			d := desc(mv) + "#err"
+			// the not-exist sentinel: the package-level error the attribute reader returns
+			sentinels := errorGlobalsReturnedBy(w, staticCallee(mv))
+			isSent := func(l, d string) bool {
+				for _, sg := range sentinels {
+					if l == "EQ("+d+","+sg+")" {
+						return true
+					}
+				}
+				return false
+			}
 			cut := fi.edgesMatching(func(l string, _ *ssa.If, _ bool) bool {
-				return l == "EQ("+d+",nil)" || l == "EQ("+d+",global:ngo/verifier.errExtendedAttributeNotExist)"
+				return l == "EQ("+d+",nil)" || isSent(l, d)
 			})
 			for e := range unnamed {
 				cut[e] = true
@@ -866,7 +876,7 @@ func c02Plugin(c *Ctx, F *ssa.Function, getCall *ssa.Call) {
 			if nc != nil {
 				dn := desc(nc) + "#err"
 				cut2 := fi.edgesMatching(func(l string, _ *ssa.If, _ bool) bool {
-					return l == "EQ("+dn+",nil)" || l == "EQ("+dn+",global:ngo/verifier.errExtendedAttributeNotExist)"
+					return l == "EQ("+dn+",nil)" || isSent(l, dn)
 				})
 				if path := fi.successWitness(Mode{Kind: mErr}, entryState(), cut2); path != nil || len(cut2) == 0 {
 					c.Bad("plugin/name-attr", "must-check (disjunctive): success requires the plugin-name attribute lookup to return nil or the not-exist sentinel", w.InstrPos(nc), "a malformed plugin-name attribute does not fail verification", path...)
